@@ -267,6 +267,11 @@ func report(o opts, s *prep.Scratch, m *merged, t0 time.Time) int {
 		if v.Mode != "c19-build" {
 			outp, code = runReplay(s, path)
 		}
+		if code == 10 {
+			fmt.Printf("NOTE: %s %s not counted: it reproduces only when several builds share one process (state kept in package-level variables of the tool); each real run is a fresh process [replay=%s]\n", o.prop, sig, path)
+			m.stats.Probes["in-process-state-artefacts-dropped"]++
+			continue
+		}
 		if code != 1 || !strings.Contains(outp, "REPRODUCED") || strings.Contains(outp, "NOT-REPRODUCED") {
 			fatal2("violation %s (%s) did not reproduce from its replay file %s in a fresh process:\n%s", o.prop, sig, path, outp)
 		}
@@ -330,19 +335,32 @@ func report(o opts, s *prep.Scratch, m *merged, t0 time.Time) int {
 	return 0
 }
 
+// runReplay re-executes a replay file in a fresh process, every build in a process of its own
+// (as the command-line tool runs). Outcomes:
+//   - reproduced                                   -> (out, 1)
+//   - not reproduced, but reproduced when all builds share one process: the divergence exists only
+//     because the harness runs many builds in one process (package-level state of the tool);
+//     every real run is a fresh process, so this is not a violation -> (out, 10)
+//   - reproduced only after repeating the identical world: the program itself is
+//     nondeterministic (goroutines the simulator does not schedule) -> (out, 1)
+//   - otherwise -> (out, 0): the caller treats that as a fault of the machinery (exit 2)
 func runReplay(s *prep.Scratch, path string) (string, int) {
-	out, code := runReplayN(s, path, 1)
+	out, code := runReplayN(s, path, 1, false)
 	if code == 0 && strings.Contains(out, "NOT-REPRODUCED") {
-		// one identical execution did not show it again: either the machinery is at fault or the
-		// program under test is itself nondeterministic (e.g. goroutines the simulator does not
-		// schedule). Repeat the same world; a reproduction is then reported as such.
-		out, code = runReplayN(s, path, 400)
+		if o2, c2 := runReplayN(s, path, 1, true); c2 == 1 {
+			return "IN-PROCESS-ARTEFACT: reproduces only when several builds share one process\n" + o2, 10
+		}
+		out, code = runReplayN(s, path, 400, false)
 	}
 	return out, code
 }
 
-func runReplayN(s *prep.Scratch, path string, retries int) (string, int) {
-	cmd := exec.Command(s.Worker, "replay", "-file", path, "-retries", fmt.Sprint(retries))
+func runReplayN(s *prep.Scratch, path string, retries int, sameProcess bool) (string, int) {
+	args := []string{"replay", "-file", path, "-retries", fmt.Sprint(retries)}
+	if sameProcess {
+		args = append(args, "-same-process")
+	}
+	cmd := exec.Command(s.Worker, args...)
 	cmd.Dir = s.Dir
 	var b bytes.Buffer
 	cmd.Stdout = &b
